@@ -126,6 +126,14 @@ fn cases(max_n: usize) -> Vec<Case> {
         v.push(Case { bytes: encode(&m, strat), sec: Sec::Question, incl_opt: false, tag: format!("sec=question opt=last n=1 ptr={}", (strat == Strategy::Max) as u8) });
     }
     }
+    // packets longer than 256 bytes with names at 256-aligned offsets (hand-assembled, see gen::aligned_pointer_packets)
+    let al = aligned_pointer_packets();
+    for (i, tag) in [(4usize, "n256"), (5, "n256opt"), (13, "n512opt")] {
+        for (sec, incl) in [(Sec::Answer, false), (Sec::Authority, false), (Sec::Additional, false), (Sec::Additional, true)] {
+            let n = decode(&al[i]).unwrap().msg.sec(sec).len();
+            v.push(Case { bytes: al[i].clone(), sec, incl_opt: incl, tag: format!("sec={}{} opt={} n={} ptr=1 long=1 aligned={}", sec_name(sec), if incl { "+opt" } else { "" }, if i == 4 { "none" } else { "first" }, n, tag) });
+        }
+    }
     v
 }
 
